@@ -35,7 +35,10 @@ MANIFEST = {
             "well-formed table), a translated table of call-surviving state (caching decorators, global / nonlocal, module-level "
             "non-constant bindings, function attributes, mutable defaults) in the 18 functions reachable from the C02 operators, decided "
             "empty (helper_state_uses_none; history_independent / reduce_after_history: a modelled call is a function of its arguments "
-            "whatever was called before), and by exact differential correspondence on integer-valued tensors of shape (b, c, [s], h, w, 2) with the "
+            "whatever was called before), a translated table of size-dependent control flow / loops / chunking calls (narrow, split, "
+            "chunk, unbind, select …) in the same functions, decided empty (helper_size_branches_none: one formula for every shape, "
+            "which is what the for-all-c specs describe; grouped_reduce_drops_tail is the witness for a complete-groups-only "
+            "accumulation), and by exact differential correspondence on integer-valued tensors of shape (b, c, [s], h, w, 2) with the "
             "coil axis at every position, in contiguous / permuted / strided / offset / stride-0 layouts, float32 and float64, singleton "
             "(broadcast) axes, with every argument checked to come back unmodified.",
     "note": "Trusted: Lean kernel (+propext, Classical.choice, Quot.sound), the AST translator, torch elementwise float32/float64 "
@@ -82,7 +85,10 @@ ASSUMPTIONS = [
     "call sites inside whole-network forward methods are covered structurally (table + decided predicate) and by evaluating the written "
     "expression / axis on tensors, not by running the network",
 ]
-RULE = ("shapes (b, c, [s], h, w, 2) with b,c,s,h,w in 1..3 (c = 1 included), coil axis at every position (positive and negative form), "
+RULE = ("shapes (b, c, [s], h, w, 2) with b,c,s,h,w in 1..3 (c = 1 included), plus a size ladder at small element counts: coil counts "
+        "1..8, 15, 16, 17, 20, 31, 32, 33, 48, 65 (all on every run, correspondence and oracle), one long batch / spatial axis of 63..300 "
+        "and matrix rows / inner / columns / batch of 15..65 with the other axes tiny (sampled in quick, all in thorough and in the deep "
+        "search); coil axis at every position (positive and negative form), "
         "broadcasting pairs incl. stride-0 and singleton sensitivity / image / data axes, zero divisors, matrix shapes 1..4 incl. rows, "
         "columns, batch 1; memory layouts contiguous / permuted / strided / offset, float32 / float64; non-trivial = more than one complex "
         "element and (for expand/reduce/cdot/rss) a summed/expanded axis of length >= 2; distinct = distinct protocol line + layout class "
@@ -199,6 +205,9 @@ def _cshape(rng, with_slice=None):
     return [b, c] + ([s] if with_slice else []) + [h, w]
 
 
+# sizes around the thresholds at which an implementation might switch algorithm / chunk an axis
+COIL_LADDER = [1, 2, 3, 4, 5, 6, 7, 8, 15, 16, 17, 20, 31, 32, 33, 48, 65]
+LONG_LADDER = [63, 64, 65, 100, 127, 128, 129, 255, 256, 257, 300]
 DYADIC = [(1, 0), (-1, 0), (0, 1), (0, -1), (1, 1), (1, -1), (-1, 1), (2, 0), (0, -2), (2, 2), (-2, 2), (0, 4), (-4, 0), (4, 4), (4, -4)]
 
 
@@ -428,6 +437,58 @@ def correspondence(ctx: Ctx):
             if bc != "/image-singleton":
                 yield case(line("reduce", *G(y), *G(S), [dr]), lambda y=ly, S=lS, d=dr: T.reduce_operator(y, S, dim=d), (ly, lS),
                            c >= 2, "reduce" + tag + bc, tags=(ty, tS))
+    # ---- size ladder: every axis a helper could chunk over, at small total element counts.  Coil counts through the whole
+    #      ladder on every run (thresholds such as 16 / 32 / 64 and their neighbours), one long batch / spatial / matrix axis
+    for c in COIL_LADDER:
+        base = [rng.choice([1, 2]) for _ in range(rng.choice([2, 3]))]
+        dim = rng.randrange(len(base) + 1)
+        ss = base[:dim] + [c] + base[dim:]
+        S, x, y = _ints(rng, ss + [2], -3, 3), _ints(rng, base + [2], -3, 3), _ints(rng, ss + [2], -3, 3)
+        neg = rng.random() < 0.3
+        d, dr = (dim - (len(base) + 2), dim - (len(ss) + 1)) if neg else (dim, dim)
+        tag = f"/coils={c}"
+        yield case(line("reduce", *G(y), *G(S), [dr]), lambda y=y, S=S, d=dr: T.reduce_operator(y, S, dim=d), (y, S), c >= 2, "ladder/reduce" + tag)
+        yield case(line("expand", *G(x), *G(S), [d]), lambda x=x, S=S, d=d: T.expand_operator(x, S, dim=d), (x, S), c >= 2, "ladder/expand" + tag)
+        which = rng.choice(["cdot", "rss"])
+        if which == "cdot":
+            yield case(line("cdot", *G(S), *G(y), [dr]), lambda a=S, b=y, d=dr: T.complex_dot_product(a, b, [d]), (S, y), c >= 2,
+                       "ladder/cdot" + tag)
+        else:
+            yield case(line("rss", *G(S), [dim, -1]), lambda S=S, d=dim: T.root_sum_of_squares(S, dim=d), (S,), c >= 2, "ladder/rss" + tag,
+                       _sq_answer)
+    for L in rng.sample(LONG_LADDER, ctx.budget(4, len(LONG_LADDER))):
+        # one long batch or spatial axis, everything else tiny: coil operators, elementwise helpers, sums
+        rank = rng.choice([2, 3])
+        base = [1] * rank
+        base[rng.randrange(rank)] = L
+        dim = rng.randrange(rank + 1)
+        c = rng.choice([1, 2, 3])
+        ss = base[:dim] + [c] + base[dim:]
+        S, x, y = _ints(rng, ss + [2], -3, 3), _ints(rng, base + [2], -3, 3), _ints(rng, ss + [2], -3, 3)
+        tag = f"/long-axis={L}"
+        yield case(line("reduce", *G(y), *G(S), [dim]), lambda y=y, S=S, d=dim: T.reduce_operator(y, S, dim=d), (y, S), True, "ladder/reduce" + tag)
+        yield case(line("expand", *G(x), *G(S), [dim]), lambda x=x, S=S, d=dim: T.expand_operator(x, S, dim=d), (x, S), True, "ladder/expand" + tag)
+        long_ax = ss.index(L)
+        yield case(line("cdot", *G(S), *G(y), [long_ax]), lambda a=S, b=y, d=long_ax: T.complex_dot_product(a, b, [d]), (S, y), True,
+                   "ladder/cdot-over-long-axis" + tag)
+        yield case(line("rss", *G(S), [long_ax, -1]), lambda S=S, d=long_ax: T.root_sum_of_squares(S, dim=d), (S,), True,
+                   "ladder/rss-over-long-axis" + tag, _sq_answer)
+        b = torch.tensor([rng.choice(DYADIC + [(0, 0)]) for _ in range(_prod(ss))], dtype=torch.float32).reshape(ss + [2])
+        yield case(line("cdiv", *G(y), *G(b)), lambda a=y, b=b: T.complex_division(a, b), (y, b), True, "ladder/cdiv" + tag)
+        yield case(line("conj", *G(y)), lambda a=y: T.conjugate(a), (y,), True, "ladder/conj" + tag)
+        yield case(line("modsq", *G(y), [-1]), lambda a=y: T.modulus(a), (y,), True, "ladder/modsq" + tag, _sq_answer)
+    for L in rng.sample(COIL_LADDER[8:], ctx.budget(4, len(COIL_LADDER) - 8)):
+        # matrix products with one long dimension (rows, inner, columns, batch)
+        which = rng.choice(["rows", "inner", "cols", "batch"])
+        nn, m, p, bb = (L if which == "rows" else 2), (L if which == "inner" else 2), (L if which == "cols" else 2), (L if which == "batch" else 1)
+        if which == "batch":
+            a, b = _ints(rng, [bb, nn, m, 2], -3, 3), _ints(rng, [bb, m, p, 2], -3, 3)
+            yield case(line("bmm", *G(a), *G(b)), lambda a=torch.view_as_complex(a), b=torch.view_as_complex(b): torch.view_as_real(T.complex_bmm(a, b)),
+                       (a, b), True, f"ladder/bmm/batch={L}")
+        else:
+            a, b = _ints(rng, [nn, m, 2], -3, 3), _ints(rng, [m, p, 2], -3, 3)
+            yield case(line("mm", *G(a), *G(b)), lambda a=torch.view_as_complex(a), b=torch.view_as_complex(b): torch.view_as_real(T.complex_mm(a, b)),
+                       (a, b), True, f"ladder/mm/{which}={L}")
     # ---- view_as_complex / view_as_real / tensor_to_complex_numpy
     for _ in range(10 * n):
         sa = _cshape(rng, with_slice=False)
@@ -1159,6 +1220,79 @@ def _alloc_history_case(T, seed):
     return bad, mode + ("/address-reused" if reused else "") + ("/f64" if dt == torch.float64 else "")
 
 
+def _ladder_case(T, axis_kind, size, seed):
+    """one size of the ladder on one kind of axis ("coil" | "batch" | "spatial" | "mm-inner" | "mm-rows" | "bmm-batch"), everything else
+    tiny: definitions against native complex arithmetic, exact adjointness, R(E x) = rss^2 x, rss, dot product, matrix products
+    -> failures [(key, what, observed)]"""
+    import random
+
+    r = random.Random(seed)
+    C = lambda t: torch.view_as_complex(t.double().clone(memory_format=torch.contiguous_format))  # noqa: E731
+    R = lambda z: torch.view_as_real(z)  # noqa: E731
+    bad = []
+
+    def chk(name, thunk, ref):
+        try:
+            got = thunk()
+            ok = got.shape == ref.shape and torch.equal(got.double(), ref)
+            obs = float((got.double() - ref).abs().max()) if got.shape == ref.shape else f"shape {list(got.shape)} != {list(ref.shape)}"
+        except Exception as e:  # noqa: BLE001
+            got, ok, obs = None, False, f"raises {err_name(e)}: {e}"[:160]
+        if not ok:
+            bad.append((f"size-ladder/{name}", f"{name} differs from native complex arithmetic for {axis_kind} size {size} (other axes tiny)", obs))
+        return got
+
+    if axis_kind in ("mm-inner", "mm-rows", "bmm-batch"):
+        nn, m, p, bb = (size if axis_kind == "mm-rows" else 2), (size if axis_kind == "mm-inner" else 3), 2, (size if axis_kind == "bmm-batch" else 1)
+        A, B = _ints(r, [bb, nn, m, 2], -3, 3), _ints(r, [bb, m, p, 2], -3, 3)
+        cA, cB = torch.view_as_complex(A), torch.view_as_complex(B)
+        if axis_kind == "bmm-batch":
+            chk("complex_bmm", lambda: R(T.complex_bmm(cA, cB)), R(C(A) @ C(B)))
+        else:
+            chk("complex_mm", lambda: R(T.complex_mm(cA[0], cB[0])), R(C(A)[0] @ C(B)[0]))
+        return bad
+    rank = r.choice([2, 3])
+    base = [r.choice([1, 2]) for _ in range(rank)]
+    c = r.choice([2, 3])
+    if axis_kind == "coil":
+        c = size
+    elif axis_kind == "batch":
+        base = [size] + [1] * (rank - 1)
+    else:
+        base = [1] * rank
+        base[r.randrange(1, rank)] = size
+    dim = r.randrange(rank + 1)
+    ss = base[:dim] + [c] + base[dim:]
+    S, x, y = _ints(r, ss + [2], -3, 3), _ints(r, base + [2], -3, 3), _ints(r, ss + [2], -3, 3)
+    neg = r.random() < 0.3
+    da = dim - (rank + 2) if neg else dim
+    Ex = chk("expand_operator", lambda: T.expand_operator(x, S, dim=da), R(C(S) * C(x).unsqueeze(dim)))
+    Ry = chk("reduce_operator", lambda: T.reduce_operator(y, S, dim=da), R((C(S).conj() * C(y)).sum(dim)))
+    if Ex is not None and Ry is not None and Ex.shape == y.shape and Ry.shape == x.shape:
+        lhs, rhs = complex((C(Ex).conj() * C(y)).sum()), complex((C(x).conj() * C(Ry)).sum())
+        if lhs != rhs:
+            bad.append(("size-ladder/adjointness", f"<E x, y> != <x, R y> for {axis_kind} size {size}", [str(lhs), str(rhs)]))
+        rss2 = (S.double() ** 2).sum(-1).sum(dim)
+        chk("reduce∘expand", lambda: T.reduce_operator(Ex, S, dim=da), rss2.unsqueeze(-1) * x.double())
+    long_ax = dim if axis_kind == "coil" else ss.index(size)
+    chk("complex_dot_product", lambda: T.complex_dot_product(S, y, [long_ax]), R((C(S).conj() * C(y)).sum(long_ax)))
+    chk("complex_dot_product", lambda: T.complex_dot_product(S, y, list(range(rank + 1))), R((C(S).conj() * C(y)).sum()))
+    try:
+        g = T.root_sum_of_squares(S, dim=long_ax).double()
+        ref = (S.double() ** 2).sum(-1).sum(long_ax)
+        if g.shape != ref.shape or not bool(torch.all((g - ref.sqrt()).abs() <= 1e-5 * ref.sqrt().clamp(min=1.0))):
+            bad.append(("size-ladder/root_sum_of_squares", f"root_sum_of_squares differs from sqrt(sum |S_i|^2) for {axis_kind} size {size}", None))
+    except Exception as e:  # noqa: BLE001
+        bad.append(("size-ladder/root_sum_of_squares", f"root_sum_of_squares raises {err_name(e)} for {axis_kind} size {size}", repr(e)[:160]))
+    chk("complex_multiplication", lambda: T.complex_multiplication(S, y), R(C(S) * C(y)))
+    chk("conjugate", lambda: T.conjugate(S), R(C(S).conj().resolve_conj()))
+    b = torch.tensor([r.choice(DYADIC + [(0, 0)]) for _ in range(_prod(ss))], dtype=torch.float32).reshape(ss + [2])
+    zb = (b[..., 0] == 0) & (b[..., 1] == 0)
+    chk("complex_division", lambda: T.complex_division(y, b),
+        R(torch.where(zb, torch.zeros_like(C(y)), C(y) / torch.where(zb, torch.ones_like(C(b)), C(b)))))
+    return bad
+
+
 def _safe_divide_case(T, seed):
     """one random case of safe_divide (everything derived from `seed`) -> (failures, bucket)"""
     import random
@@ -1392,6 +1526,17 @@ def oracle(ctx: Ctx, deep: bool = False):
         ctx.count(("alloc-history", seed), True, bucket="oracle/alloc-history/" + bucket)
         for key, what, obs in bad:
             yield Violation(key, what, {"op": "alloc-history", "seed": seed, "law": key, "observed": obs})
+    # (2c'') size ladder: the whole coil ladder on every run, long batch / spatial / matrix axes (all in the thorough tier)
+    ladder = [("coil", c) for c in COIL_LADDER] + [("mm-inner", c) for c in COIL_LADDER[8:]] + [("mm-rows", c) for c in COIL_LADDER[8:]] + \
+        [("bmm-batch", c) for c in COIL_LADDER[8:]]
+    longs = [(k, L) for k in ("batch", "spatial") for L in LONG_LADDER]
+    ladder += longs if big else rng.sample(longs, 8)
+    for kind, size in ladder:
+        for _ in range(2 if (kind == "coil" or big) else 1):
+            seed = rng.randrange(2 ** 31)
+            ctx.count(("size-ladder", kind, size, seed), True, bucket=f"oracle/size-ladder/{kind}={size}")
+            for key, what, obs in _ladder_case(T, kind, size, seed):
+                yield Violation(key, what, {"op": "size-ladder", "axis": kind, "size": size, "seed": seed, "law": key, "observed": obs})
     # (2d) every inline site of the translated call-site table: the real source expression, evaluated
     rows = _site_rows()
     site_kinds: dict[str, int] = {}
@@ -1594,6 +1739,8 @@ def replay(rep: dict) -> bool:
         if op == "history":
             bad, _ = _history_case(T, rep["seed"])
             return any(k == rep["law"] for k, _, _ in bad)
+        if op == "size-ladder":
+            return any(k == rep["law"] for k, _, _ in _ladder_case(T, rep["axis"], rep["size"], rep["seed"]))
         if op == "alloc-history":
             bad, _ = _alloc_history_case(T, rep["seed"])
             return any(k == rep["law"] for k, _, _ in bad)
